@@ -12,6 +12,22 @@ CHECKS = {
        "ChargedToParent, StatusTruth, Exact) are evaluated on every transition and hold for the real manager because its state equals the model's",
   note="bounded: depth<=3-4 contexts, 2-3 nested CallContext, limits/amounts from a 4-bit lattice; time limits not modelled; TLC and the JSON bridge trusted",
   technique="TLA+ spec Quota.tla, TLC exhaustive BFS, per-transition replay on the real API (direction A)"),
+ "C09": dict(
+  level="model_checking", ref="5 C09",
+  text="TLC explores CoSem (Lua 5.4 coroutine semantics: status machine, resume chain, value transfer, close, wrap, pending to-be-closed "
+       "variables) and emits one script per transition; each is rendered as a Lua program and run on the real runtime; emitted values, "
+       "statuses, error values, the number of goroutines left behind and termination (watchdog) are compared with the model",
+  note="bounded: <=3 coroutines, <=8 script actions exhaustively per (state, recent actions), random deeper scripts by TLC simulation; error message wording not compared; "
+       "the goroutine-level interleaving model is separate (see DESIGN.md)",
+  technique="TLA+ spec CoSem.tla, TLC BFS + simulation, generated programs replayed on the real runtime (direction A)"),
+ "C10": dict(
+  level="model_checking", ref="5 C10",
+  text="TLC explores CloseStack (scopes do/loop/for-in/function/pcall/coroutine, to-be-closed declarations with ok/raising/nil/false/non-closable "
+       "values, exits by end/break/goto/return/tail-return/error/yield-then-close) and emits one execution path per transition; each is rendered "
+       "as a Lua program and run; the sequence of __close calls with their error argument, the markers of the code that receives control, "
+       "pcall/resume/close results and the final outcome are compared with the manual's semantics computed by the spec",
+  note="bounded: nesting <=3-4, <=6-8 actions, <=2 variables per scope; single-iteration loops; chunks run inside Thread.CallContext (F23 recorded for bare rt.Call)",
+  technique="TLA+ spec CloseStack.tla, TLC BFS + simulation, generated programs replayed on the real runtime (direction A)"),
 }
 NOT_YET = {}
 
